@@ -456,6 +456,7 @@ Section WithMatch.
   Proof.
     unfold project_slice. intro H. apply bind_ok in H. destruct H as [[[sk lim] hs] [_ H]].
     destruct (Get d k); try (inversion H; left; reflexivity).
+    destruct (max_slice_len <=? len a)%Z; [discriminate|].
     apply bind_ok in H. destruct H as [w [_ H]]. inversion H. right. eauto.
   Qed.
 
@@ -1164,7 +1165,9 @@ Section WithMatch.
     destruct (one_operator_merge _ _ _ _ _ _ Hpre Hpost Hp) as [st1 [st2 [Hm1 [_ [He [Hm _]]]]]].
     apply slice_entry_step in He. unfold project_slice in He. rewrite Ha in He.
     assert (Harg : exists w, slice_limit a n = Ok w /\ st2 = set_merge st1 p (VArr w)).
-    { destruct x; try discriminate Hx; rewrite Hx in He; cbn [bind] in He;
+    { destruct (max_slice_len <=? len a)%Z;
+        [destruct x; try discriminate Hx; rewrite Hx in He; cbn [bind] in He; discriminate|].
+      destruct x; try discriminate Hx; rewrite Hx in He; cbn [bind] in He;
         apply bind_ok in He; destruct He as [w [Hw He]]; inversion He; eauto. }
     destruct Harg as [w [Hw Hst2]].
     rewrite (slice_limit_spec a n w Hn Hlen Hw) in Hst2.
@@ -1189,7 +1192,8 @@ Section WithMatch.
     destruct (one_operator_merge _ _ _ _ _ _ Hpre Hpost Hp) as [st1 [st2 [Hm1 [_ [He [Hm _]]]]]].
     apply slice_entry_step in He. unfold project_slice in He. rewrite Ha, Hxs, Hxl in He.
     destruct (l <? 0)%Z eqn:El; [discriminate|]. apply Z.ltb_ge in El.
-    cbn [bind] in He. apply bind_ok in He. destruct He as [w [Hw He]]. inversion He as [Hst2].
+    cbn [bind] in He. destruct (max_slice_len <=? len a)%Z; [discriminate|].
+    apply bind_ok in He. destruct He as [w [Hw He]]. inversion He as [Hst2].
     split; [exact El|].
     rewrite (slice_skip_limit_spec a s l w Hs_ Hl_ El Hlen Hw) in Hst2.
     apply (single_merge_result st d r p _ Hs); try assumption; [|reflexivity].
@@ -1207,10 +1211,14 @@ Section WithMatch.
     intros Hwf Hlen. unfold project_slice.
     assert (Hnum : forall n, int32r n ->
               exists st', match Get d p with
-                          | VArr a => let* w := slice_limit a n in Ok (set_merge st p (VArr w))
+                          | VArr a =>
+                              if (max_slice_len <=? len a)%Z then Unmodelled
+                              else let* w := slice_limit a n in Ok (set_merge st p (VArr w))
                           | _ => Ok st
                           end = Ok st').
     { intros n Hr. destruct (Get d p) eqn:Eg; eauto.
+      replace (max_slice_len <=? len a)%Z with false
+        by (symmetry; apply Z.leb_gt; unfold max_slice_len; exact (Hlen a eq_refl)).
       assert (Hl : (len a < two63)%Z) by (pose proof (Hlen a eq_refl); unfold two31 in *; lia).
       destruct (slice_limit_total a n Hr Hl) as [w Hw]. rewrite Hw. cbn [bind]. eauto. }
     destruct v; try (left; reflexivity).
@@ -1227,6 +1235,8 @@ Section WithMatch.
       destruct (project_slice_int y) as [l|] eqn:Ey; [|left; reflexivity].
       destruct (l <? 0)%Z eqn:El; [left; reflexivity|]. apply Z.ltb_ge in El.
       cbn [bind]. right. destruct (Get d p) eqn:Eg; eauto.
+      replace (max_slice_len <=? len a)%Z with false
+        by (symmetry; apply Z.leb_gt; unfold max_slice_len; exact (Hlen a eq_refl)).
       destruct (slice_skip_limit_total a s l (project_slice_int_range x s Hwx Ex)
                   (project_slice_int_range y l Hwy Ey) El (Hlen a eq_refl)) as [w Hw].
       rewrite Hw. cbn [bind]. eauto.
